@@ -133,6 +133,40 @@ SquareF(ph) == IF DLt(Dec(F64, ph), DHalf) THEN FOne ELSE FMinusOne
 NoiseNextL2(seed, M, checked) ==
   [ok |-> ~(checked /\ seed + 1 >= M), seed |-> (seed + 1) % M]
 
+\* N1 as coded, on exact naturals (Big.tla limbs): a chain of u64 operations, EVERY ONE of them wrapping
+\*   x = (c << 13) ^ c;  out = 1 - (((x * ((x * x) * P1 + P2)) + P3) & 0x7fffffff) / 2^30      (c = seed + index)
+\* NoiseStages gives the UNREDUCED result of each operation on its already reduced operands; an operation
+\* "crosses" when that result does not fit 64 bits, i.e. it is where checked arithmetic (a build with overflow
+\* checks: `+` / `*` instead of wrapping_add / wrapping_mul) and wrapping arithmetic part ways.  The property
+\* wants a value at every counter in every build, so every operation of the chain has to be driven across
+\* 2^64: NoiseCross is what Trace_Osc uses to verify that a stimulus labelled as crossing at an operation
+\* really does (the crossing bands of `+ P2` and `+ P3` are 8e5 resp. 1.4e9 wide out of 2^64: no random
+\* seed ever lands there).  The VALUE of the hash is not part of the property and is not judged.
+RECURSIVE XorNat(_, _)
+XorNat(a, b) == IF a = 0 THEN b ELSE IF b = 0 THEN a ELSE ((a + b) % 2) + 2 * XorNat(a \div 2, b \div 2)
+BXor(a, b) ==
+  LET n == IF Len(a) >= Len(b) THEN Len(a) ELSE Len(b)
+      at(s, i) == IF i <= Len(s) THEN s[i] ELSE 0
+  IN BNorm([i \in 1..n |-> XorNat(at(a, i), at(b, i))])
+NoiseP1 == BFromNat(15731)
+NoiseP2 == BFromNat(789221)
+NoiseP3 == BFromNat(1376312589)
+U64(a) == BLowBits(a, 64)
+NoiseStages(c) ==  \* c = counter (a Big natural below 2^64)
+  LET shl == BShl(c, 13)
+      x   == BXor(U64(shl), c)
+      sq  == BMul(x, x)
+      m1  == BMul(U64(sq), NoiseP1)
+      a2  == BAdd(U64(m1), NoiseP2)
+      mx  == BMul(x, U64(a2))
+      a3  == BAdd(U64(mx), NoiseP3)
+  IN [shl |-> shl, sq |-> sq, m1 |-> m1, a2 |-> a2, mx |-> mx, a3 |-> a3]
+NoiseOpNames == {"shl", "sq", "m1", "a2", "mx", "a3"}
+NoiseCross(c) == LET s == NoiseStages(c) IN { o \in NoiseOpNames : BCmp(s[o], BPow2(64)) >= 0 }
+\* the 31 bits that become the output: all ones = the smallest output the chain can produce
+NoiseLow31(c) == BLowBits(NoiseStages(c).a3, 31)
+NoiseLabelOK(c, lab) == IF lab = "lo31ones" THEN NoiseLow31(c) = BFromNat(2147483647) ELSE lab \in NoiseCross(c)
+
 ---------------------------------------------------------------------------
 (* acceptance predicates for observed executions (Trace_Osc)               *)
 
